@@ -41,9 +41,12 @@ P.fn(F + 'Filenames._newFilename', name='Filenames._newFilename', params=dict(se
      raises={'ValueError': 'True', 'IndexError': 'True'},
      ensures=[], allocates=True, skip_frame=True,
      calls={'keysre.findall': 'Regex.findall', 're.sub': 're.sub', 'string.Template': 'string.Template', 'self.variables.copy': 'dict_copy',
-            'self.variables.clear': 'dict_clear', 'self.variables.update': 'dict_update', 'value.replace': 'fmt_', 'currentns[key].split': 'str_split',
+            'self.variables.clear': 'dict_clear', 'self.variables.update': 'dict_update', 'value.replace': 'fmt_', 'currentns[key].split': 'str_split', 'self.variables[key].split': 'str_split',
             "' '.join": 'str_join_', 'int': 'int_', 'self.addExtension': 'Filenames.addExtension',
             'string.Template(item).substitute': 'Template.substitute'},
      # loops 1 (static names), 6 (passes) and 7 (wildcard alternatives) may record a name; the inner loops only prepare the namespace
-     loops={k: Loop(inv=ALIAS + [MONO], modifies=LOOPMOD if k in (1, 6, 7) else [Mod('dict:str,str', 'True'), Mod('list:str', 'fresh(r)')]) for k in range(1, 12)})
+     # the inner loops (2-5, 8-11) only prepare the candidate's namespace `currentns`, a copy of the variables: its keys stay keys of the variables
+     loops={k: (Loop(inv=ALIAS + [MONO], modifies=LOOPMOD) if k in (1, 6, 7) else
+                Loop(inv=ALIAS + [MONO, 'currentns is not self.variables', 'currentns is not g', 'all(implies(k in currentns and k != "num", k in self.variables) for k in Strs())'],
+                     modifies=[Mod('dict:str,str', 'r is currentns'), Mod('list:str', 'fresh(r)')])) for k in range(1, 12)})
 P.assume('self.invalid is written only by the generator while it runs (the renderer passes the reserved names in before the first request)')
